@@ -728,4 +728,107 @@ def run(chk):
     if not okl:
         chk.violation(r_wc, "evalWellComparisons", "Value::evalWellComparisons: every recorded (well, value) pair must be tested with scalarComparisonHolds(value, op, rhs), the well of a satisfying pair kept, and the result be Result{!list.empty()}.wells(list); found %s" % det, ew["file"], ew["l"])
 
+    # ---- C18.leaf: what a leaf of the condition tree evaluates to (decision tables, verif/dtable.py)
+    r_lf = chk.rule("C18.leaf", "ASTNode.cpp, decision tables of the evaluation dispatch: eval throws on a leaf, combines children for AND / OR and compares otherwise; evalComparison compares children.front() with children[1] (left operand on the left), rounding a numeric right-hand side only when the left is MNTH; nodeValue gives the number, the plain summary value, the per-well list for a single pattern argument and the keyed scalar otherwise; a list expression exists only for well quantities; a keyed well scalar carries its well name; evalWellExpression asks the context for every well of getWellList under that well's name; getWellList takes a '*NAME' argument from the well-list manager and otherwise filters the context's wells with shmatch on the pattern (one leading backslash removed); a pattern is a single argument containing '*', a well list a '*' followed by at least one character", floor=10)
+    from verif import dtable
+    ax18 = chk.facts([A + "ASTNode.cpp"])
+
+    def node_fn(nm, cls=True):
+        c = [f for f in ax18.fns if f["n"] == nm and f.get("body") and f["file"].endswith("ASTNode.cpp") and (not cls or (f.get("cls") or "").endswith("Action::ASTNode"))]
+        if len(c) != 1:
+            raise core.AnalysisBroken("ASTNode.cpp: %d definitions of %s" % (len(c), nm))
+        return c[0]
+
+    def leaf_table(nm, atoms, want, boolean=False, opaque=(), ignore=None, cls=True, why=""):
+        f = node_fn(nm, cls)
+        ctxn = f["params"][0]["n"] if f["params"] else None
+        try:
+            got = dtable.table(f, boolean=boolean, opaque=opaque, ignore=ignore)
+        except dtable.NotATable as e_:
+            chk.instance(r_lf, nm, sample=dict(not_a_table=str(e_)))
+            chk.violation(r_lf, nm, "%s is no longer a dispatch over its conditions (%s): %s" % (f["q"], e_, why), f["file"], f["l"])
+            return f
+        if ctxn:
+            rn_ = lambda t_: re.sub(r"(?<![\w.:])%s\b" % re.escape(ctxn), "CTX", t_) if isinstance(t_, str) else t_
+            pairs_ = sorted(zip([rn_(a_) for a_ in got[0]], range(len(got[0]))))
+            got = ([a_ for a_, _ in pairs_], {tuple(k_[i_] for _, i_ in pairs_): rn_(v_) for k_, v_ in got[1].items()})
+        diffs = dtable.same_table(got, atoms, want)
+        chk.instance(r_lf, nm, sample=dict(atoms=got[0], outcomes=sorted({str(v_) for v_ in got[1].values()})))
+        if diffs:
+            chk.violation(r_lf, nm, "%s: %s; %s" % (f["q"], "; ".join(diffs[:3]), why), f["file"], f["l"])
+        return f
+
+    T_OR, T_AND, T_LEAF = "this.type == TokenType::op_or", "this.type == TokenType::op_and", "this.empty()"
+    leaf_table("eval", [T_LEAF, T_AND, T_OR],
+               lambda v: "throw" if v[T_LEAF] else "this.evalLogicalOperation(CTX)" if (v[T_AND] or v[T_OR]) else "this.evalComparison(CTX)",
+               why="an AND / OR node combines its children, any other inner node is a comparison")
+    T_MN, T_NUM1 = "this.children.front().func_type == FuncType::time_month", "this.children[1].type == TokenType::number"
+    CMPF = "this.children.front().nodeValue(CTX).eval_cmp(this.type, %s)"
+    leaf_table("evalComparison", [T_MN, T_NUM1],
+               lambda v: [CMPF % "Value{round(this.children[1].number)}", CMPF % "Value{std::round(this.children[1].number)}"] if (v[T_MN] and v[T_NUM1]) else CMPF % "this.children[1].nodeValue(CTX)",
+               why="the left child is compared, with this node's operator, against the right child; only MNTH against a number is rounded")
+    T_NUM, T_NOARG, T_PAT = "this.type == TokenType::number", "this.arg_list.empty()", "this.argListIsPattern()"
+    leaf_table("nodeValue", [T_LEAF, T_NUM, T_NOARG, T_PAT],
+               lambda v: "throw" if not v[T_LEAF] else "Value{this.number}" if v[T_NUM] else "Value{CTX.get(this.func)}" if v[T_NOARG]
+               else "this.evalListExpression(CTX)" if v[T_PAT] else "this.evalScalarExpression(CTX)",
+               why="number -> literal; no argument -> field level value; one pattern argument -> per-well list; otherwise keyed scalar")
+    T_WELL = "this.func_type == FuncType::well"
+    leaf_table("evalListExpression", [T_WELL], lambda v: "this.evalWellExpression(CTX)" if v[T_WELL] else "throw",
+               why="a pattern argument is meaningful for well quantities only")
+    sf = leaf_table("evalScalarExpression", [T_WELL], lambda v: "Value{this.arg_list.front(), CTX.get(this.func, arg_key)}" if v[T_WELL] else "Value{CTX.get(this.func, arg_key)}",
+                    opaque=("arg_key",), why="a well quantity with a plain well name keeps the name, so that the well enters the matching set")
+    keyd = [show(v["init"]) for n in stmt_list(sf["body"]) if n["k"] == "Decl" for v in n["vars"] if v["n"] == "arg_key" and isinstance(v.get("init"), dict)]
+    ok_key = len(keyd) == 1 and re.search(r'\{"\{\}"\}, fmt::join\(this\.arg_list, (fmt::string_view\{)?":"\}?\)\)$', keyd[0]) is not None
+    chk.instance(r_lf, "arg_key", sample=dict(init=keyd))
+    if not ok_key:
+        chk.violation(r_lf, "arg_key", "evalScalarExpression: the summary key is the argument list joined with ':' (found %s)" % keyd, sf["file"], sf["l"])
+    # evalWellExpression
+    wf = node_fn("evalWellExpression")
+    cx = wf["params"][0]["n"]
+    wst = stmt_list(wf["body"])
+    okw = False
+    detw = [show(x)[:200] for x in wst]
+    if len(wst) == 3 and wst[0]["k"] == "Decl" and wst[1]["k"] == "ForRange" and wst[2]["k"] == "Return":
+        acc = wst[0]["vars"][0]["n"]
+        it = wst[1]["var"]["n"]
+        lb = [dtable.norm(show(x)) for x in stmt_list(wst[1]["body"])]
+        okw = (dtable.norm(show(strip(wst[1]["range"]))) == "this.getWellList(%s)" % cx and lb == ["%s.add_well(%s, %s.get(this.func, %s))" % (acc, it, cx, it)]
+               and show(strip(wst[2]["e"])) == acc and dtable.norm(show(wst[0]["vars"][0].get("init") or {})) in ("Value{}", "Value()"))
+    chk.instance(r_lf, "evalWellExpression", sample=dict(body=detw))
+    if not okw:
+        chk.violation(r_lf, "evalWellExpression", "evalWellExpression must add, for every well W of getWellList(context), the pair (W, context.get(func, W)) to a fresh Value and return it (found %s)" % detw, wf["file"], wf["l"])
+    # getWellList
+    gw = node_fn("getWellList")
+    cx = gw["params"][0]["n"]
+    T_WL = "this.argListIsWellList()"
+    is_fill = lambda s_: (s_["k"] == "MCall" and s_.get("m") == "reserve") or (s_["k"] == "Call" and (s_.get("fn") or "").endswith("copy_if"))
+    leaf_table("getWellList", [T_WL], lambda v: "CTX.wlist_manager().wells(this.arg_list.front())" if v[T_WL] else "wnames", opaque=("wnames", "wells"), ignore=is_fill,
+               why="'*NAME' names a well list (WLIST); anything else is a well-name pattern")
+    cps = [n for n in stmt_list(gw["body"]) if n["k"] == "Call" and (n.get("fn") or "").endswith("copy_if")]
+    decl18 = {v["n"]: dtable.norm(show(v["init"])) for n in stmt_list(gw["body"]) if n["k"] == "Decl" for v in n["vars"] if isinstance(v.get("init"), dict)}
+    okc = False
+    detc = dict(decls=decl18, copies=[show(x)[:200] for x in cps])
+    if len(cps) == 1 and len(cps[0]["a"]) == 4 and strip(cps[0]["a"][3]).get("k") == "Lambda":
+        lam = strip(cps[0]["a"][3])
+        a3 = [dtable.norm(show(strip(x))) for x in cps[0]["a"][:3]]
+        m_out = re.fullmatch(r"std::back_inserter\((\w+)\)", a3[2])
+        m_in = re.fullmatch(r"(\w+)\.begin\(\)", a3[0])
+        capi = [dtable.norm(show(x)) for x in lam.get("capinits") or []]
+        lbody = [dtable.norm(show(x)) for x in stmt_list(lam["body"])]
+        detc.update(lambda_captures=capi, lambda_body=lbody)
+        if m_out and m_in and a3[1] == "%s.end()" % m_in.group(1) and len(lam["params"]) == 1 and len(lam.get("caps") or []) == 1:
+            okc = (decl18.get(m_in.group(1)) == "%s.wells(this.func)" % cx and re.fullmatch(r"std::vector<std::string>\{\{?\}?\}|std::vector<std::string>\(\)", decl18.get(m_out.group(1)) or "") is not None
+                   and m_out.group(1) == "wnames" and capi == ["normalisePattern(this.arg_list.front())"]
+                   and lbody == ["return shmatch(%s, %s);" % (lam["caps"][0]["n"], lam["params"][0]["n"])])
+    chk.instance(r_lf, "getWellList.filter", sample=detc)
+    if not okc:
+        chk.violation(r_lf, "getWellList.filter", "getWellList must copy, from context.wells(func), exactly the wells W with shmatch(normalisePattern(arg_list.front()), W) into the returned list (found %s)" % detc, gw["file"], gw["l"])
+    T_BS = "CTX.front() == '\\'"
+    leaf_table("normalisePattern", [T_BS], lambda v: ["CTX.substr(1, <default>)", "CTX.substr(1)"] if v[T_BS] else "CTX", cls=False,
+               why="one leading backslash quotes a leading '*' and is not part of the pattern")
+    T_ONE, T_NOSTAR = "this.arg_list.size() == 1", 'this.arg_list.front().find("*", <default>) == npos'
+    leaf_table("argListIsPattern", [T_ONE, T_NOSTAR], lambda v: v[T_ONE] and not v[T_NOSTAR], boolean=True, why="a pattern is a single argument that contains '*'")
+    T_STAR, T_LONG = "this.arg_list.front().front() == '*'", "this.arg_list.front().size() > 1"
+    leaf_table("argListIsWellList", [T_STAR, T_LONG], lambda v: v[T_STAR] and v[T_LONG], boolean=True, why="'*' alone is the all-wells pattern, '*X' names a well list")
+
     chk.assumptions += ["documented ACTIONX condition syntax (AND binds tighter than OR; .GT. style aliases) as frozen in rules/C18.py"]
